@@ -9,7 +9,7 @@ Python `str` values.  Import-free, total, executable.
 |--------------------------------------------------------------------|----------------------------|
 | `str.replace(old, new)` (CPython, non-overlapping, left to right)   | `pyReplace`                |
 | `str.lower()` per character (table regenerated from CPython)        | `Prep.lowerRanges/lowerSpecial`, `lower` |
-| `LEGAL_CHARACTERS = re.compile(r"^[A-Z0-9_$]+$", re.I)` `.match`    | `legalMatch` (class probed per code point; `$` also matches before one trailing `\n`) |
+| `LEGAL_CHARACTERS = re.compile(r"^[A-Z0-9_$]+\Z", re.I)` `.match`   | `legalMatch` (class probed per code point; `Prep.legalNl` records a `$` anchor, which also matches before one trailing `\n`) |
 | `IdentifierPreparer._escape_identifier` (+ MSSQL override)          | `escape` = `applyOps escOps` |
 | `IdentifierPreparer._unescape_identifier` (+ MSSQL override)        | `unescape` = `applyOps unescOps` |
 | `quote_identifier`                                                  | `quoteIdentifier`          |
@@ -78,6 +78,9 @@ structure Prep where
   lowerRanges : List (Nat × Nat × Nat × Int)
   /-- code points whose `lower()` is not a single character -/
   lowerSpecial : List (Nat × Str)
+  /-- `legal_characters` is anchored with `$` (which also matches before one trailing
+      `\n`) rather than with `\Z` -/
+  legalNl : Bool := false
   /-- the same two tables for `str.upper()` -/
   upperRanges : List (Nat × Nat × Nat × Int) := []
   upperSpecial : List (Nat × Str) := []
@@ -115,10 +118,11 @@ def upperChar (p : Prep) (c : Nat) : Str :=
 /-- `value.upper()` -/
 def upper (p : Prep) (s : Str) : Str := s.flatMap (upperChar p)
 
-/-- `legal_characters.match(value)` for the shape `^[class]+$`: one or more class
-    characters, then end of string or exactly one final `\n`. -/
+/-- `legal_characters.match(value)` for the shapes `^[class]+\Z` (one or more class
+    characters up to the end of the string) and `^[class]+$` (the same, or followed by
+    exactly one final `\n`). -/
 def legalMatch (p : Prep) (s : Str) : Bool :=
-  let body := if s.getLast? == some 10 then s.dropLast else s
+  let body := if p.legalNl && s.getLast? == some 10 then s.dropLast else s
   !body.isEmpty && body.all (fun c => p.legalChars.contains c)
 
 def escape (p : Prep) (s : Str) : Str := applyOps p.escOps s
